@@ -41,6 +41,8 @@ def main():
             tier = args.pop(0)
         elif a == "--base":
             base = args.pop(0)
+        elif a == "--no-checks":
+            checks = []
         elif a == "--only":
             only = " ".join("--only " + h for h in args.pop(0).split(","))
     out_dir = os.path.join(VERIF, "seeded", sid)
